@@ -80,6 +80,13 @@ def main():
             merged = dict(prev['checks'])
             merged.update(r['checks'])
             r['checks'] = merged
+        if os.path.exists(path):       # merge with what concurrent runs wrote meanwhile
+            try:
+                disk = json.load(open(path))
+                disk.update({k: v for k, v in results.items() if k not in disk})
+                results = disk
+            except Exception:
+                pass
         results[sid] = r
         t = r['checks'].get(meta['property'], {})
         print(sid, 'applies' if r.get('applies') else 'PATCH DOES NOT APPLY', 'demo exit', r.get('demo_exit_with_patch'),
